@@ -1,5 +1,12 @@
 package net
 
-import "runtime"
+import (
+	"runtime"
+	"unicode"
+)
 
 func runtimeGosched() { runtime.Gosched() }
+
+func unicodeTables() []*unicode.RangeTable {
+	return []*unicode.RangeTable{unicode.Latin, unicode.Cyrillic, unicode.Han, unicode.Digit, unicode.Space, unicode.Sm}
+}
